@@ -181,11 +181,14 @@ class VLin(V):
 
 
 class VConstr(V):
-    def __init__(self, t):
+    """Linear constraint: t is its truth under the assignment; diff <= 0 is its normal form."""
+
+    def __init__(self, t, diff=None):
         self.t = t
+        self.diff = diff
 
     def map_terms(self, fn):
-        return VConstr(fn(self.t))
+        return VConstr(fn(self.t), fn(self.diff) if self.diff is not None else None)
 
 
 class VFam(V):
